@@ -6,8 +6,12 @@ pub mod c03;
 pub mod c04;
 pub mod c05;
 pub mod c06;
+pub mod c07;
 pub mod c08;
 pub mod c09;
+pub mod c10;
+pub mod c11;
+pub mod c12;
 pub mod c13;
 pub mod c14;
 pub mod c15;
@@ -20,8 +24,12 @@ pub fn all() -> Vec<Property> {
         c04::property(),
         c05::property(),
         c06::property(),
+        c07::property(),
         c08::property(),
         c09::property(),
+        c10::property(),
+        c11::property(),
+        c12::property(),
         c13::property(),
         c14::property(),
         c15::property(),
